@@ -1,10 +1,10 @@
-\* negative control: parents of missing commits assumed present on the peer -> ReceiverComplete must fail
+\* negative control: seeded model defect "RemoteHasParents"; TLC must report ReceiverComplete violated
 SPECIFICATION Spec
 CONSTANTS
   NC = 2
   NTP = 3
   NT = 1
-  MaxHeads = 3
+  MaxHeads = 2
   MaxWants = 1
   Modes = {"detailed"}
   IncTag = {FALSE}
